@@ -170,7 +170,7 @@ def run_check(world, prop, tier, verif_seed, level, rule, assumptions, scale=1.0
     specs = world.plan(tier, verif_seed, scale)
     task = _task(world)
     stats, probes = kernel.Counter(), kernel.Counter()
-    states, digests = set(), set()
+    states, digests, schedules = set(), set(), set()
     nontrivial_digests = set()
     pooled = {}
     failing = []  # (index, failure)
@@ -192,6 +192,8 @@ def run_check(world, prop, tier, verif_seed, level, rule, assumptions, scale=1.0
         steps += res.get("steps", 0)
         if len(states) < 3000000:
             states.update(res.get("states", ()))
+        if res.get("schedule") is not None:
+            schedules.add(res["schedule"])
         for f in res["failures"]:
             if f["property"] == prop:
                 failing.append((res["index"], f))
@@ -291,6 +293,9 @@ def run_check(world, prop, tier, verif_seed, level, rule, assumptions, scale=1.0
         "logical_steps": steps,
         "simulated_time": "the system has no clock, timer or deadline; time is counted in logical steps (operations executed)",
         "distinct_abstract_states": len(states),
+        "abstract_state_measure": getattr(world, "STATE_MEASURE", None),
+        "distinct_client_interleavings": len(schedules),
+        "client_interleaving_measure": "distinct sequences of client ids in execution order (which client performed each step), decided by the seeded scheduler",
         "stats": dict(stats),
         "reach_probes": dict(probes),
         "reach_lost": reach_lost,
